@@ -77,6 +77,25 @@ def check_sizes(case):
             out.append({"key": "size-accepted" if accepted else "size-rejected",
                         "what": "alphabetSize=%r was %s" % (s, "accepted" if accepted else "rejected"),
                         "case": dict(case, size=s)})
+    # the same sweep three times over on ONE live object, through both entry points
+    from localcider.sequenceParameters import SequenceParameters as SP
+    o = SP("ACDEFGHIKLMNPQRSTVWY")
+    for sweep in range(3):
+        for s in cands:
+            for how in ("reduce", "complexity"):
+                calls += 1
+                try:
+                    if how == "reduce":
+                        o.get_reduced_alphabet_sequence(s)
+                    else:
+                        o.get_linear_complexity("WF", s, blobLen=5)
+                    accepted = True
+                except Exception:  # noqa
+                    accepted = False
+                if accepted != (s in T.SIZES):
+                    out.append({"key": "size-accepted-on-reused-object" if accepted else "size-rejected-on-reused-object",
+                                "what": "sweep %d on a reused object (%s): alphabetSize=%r was %s"
+                                % (sweep + 1, how, s, "accepted" if accepted else "rejected"), "case": dict(case, size=s, sweep=sweep)})
     return out, calls
 
 
